@@ -37,10 +37,20 @@ class NfdRegister(PrefixRegisterer):
     def __init__(self):
         super().__init__()
         self._prefix_register_semaphore = aio.Semaphore(1)
+        self._semaphore_loop = None
+
+    def _command_semaphore(self) -> aio.Semaphore:
+        # A semaphore binds itself to the event loop it is first contended in; an application that is run under another
+        # event loop later (one asyncio.run() per session) needs one for that loop
+        loop = aio.get_running_loop()
+        if self._semaphore_loop is not loop:
+            self._prefix_register_semaphore = aio.Semaphore(1)
+            self._semaphore_loop = loop
+        return self._prefix_register_semaphore
 
     async def register(self, name: enc.NonStrictName) -> bool:
         # Fix the issue that NFD only allows one packet signed by a specific key for a timestamp number
-        async with self._prefix_register_semaphore:
+        async with self._command_semaphore():
             for _ in range(1000):  # (a coarse wall clock may take 16 ms and more to show another reading)
                 now = utils.timestamp()
                 if now > self._last_command_timestamp:
@@ -77,7 +87,7 @@ class NfdRegister(PrefixRegisterer):
 
     async def unregister(self, name: enc.NonStrictName) -> bool:
         # Fix the issue that NFD only allows one packet signed by a specific key for a timestamp number
-        async with self._prefix_register_semaphore:
+        async with self._command_semaphore():
             for _ in range(1000):  # (a coarse wall clock may take 16 ms and more to show another reading)
                 now = utils.timestamp()
                 if now > self._last_command_timestamp:
